@@ -118,14 +118,12 @@ theorem inv_initLoop (st : PSettings) (toks : List TI) (fuel i : Nat) (p r : PS)
           · rename_i p' hp'
             exact ih _ _ (inv_initStep st toks i t p p' h hp') hr
 
-theorem inv_fillInner (attr : Comp) (us : List (TI × Comp)) (q r : PS) (h : q.Inv)
-    (hr : us.foldlM (fun (q : PS) (tc : TI × Comp) =>
-      if tc.1.ty = 0 then
-        match tc.1.intVal with
-        | some v => pure ((q.setC attr v).setT attr (.plain tc.1.text))
-        | none => Except.error (PyErr.value .other)
-      else pure q) q = .ok r) : r.Inv := by
-  induction us generalizing q with
+theorem inv_fillZip (xs : List (Comp × (TI × Comp))) (q r : PS) (h : q.Inv)
+    (hr : xs.foldlM (fun (q : PS) (x : Comp × (TI × Comp)) =>
+      match x.2.1.intVal with
+      | some v => pure ((q.setC x.1 v).setT x.1 (.plain x.2.1.text))
+      | none => Except.error (PyErr.value .other)) q = .ok r) : r.Inv := by
+  induction xs generalizing q with
   | nil => simp only [List.foldlM, pure, Except.pure] at hr; injection hr with hr; subst hr; exact h
   | cons u us ih =>
     simp only [List.foldlM, bind, Except.bind] at hr
@@ -134,42 +132,16 @@ theorem inv_fillInner (attr : Comp) (us : List (TI × Comp)) (q r : PS) (h : q.I
     · rename_i q' hq'
       refine ih q' ?_ hr
       split at hq'
-      · split at hq'
-        · rename_i v hv
-          simp only [pure, Except.pure] at hq'
-          injection hq' with hq'; subst hq'
-          obtain ⟨h1, h2, h3⟩ := h
-          cases attr <;> simp [PS.Inv, PS.setT, PS.setC] <;> refine ⟨?_, ?_⟩ <;> assumption
-        · cases hq'
-      · simp only [pure, Except.pure] at hq'
-        injection hq' with hq'; subst hq'; exact h
+      · rename_i v hv
+        simp only [pure, Except.pure] at hq'
+        injection hq' with hq'; subst hq'
+        obtain ⟨h1, h2, h3⟩ := h
+        cases u.1 <;> simp [PS.Inv, PS.setT, PS.setC] <;> refine ⟨?_, ?_⟩ <;> assumption
+      · cases hq'
 
 theorem inv_fillUnknown (p r : PS) (h : p.Inv) (hr : fillUnknown p = .ok r) : r.Inv := by
   unfold fillUnknown at hr
-  simp only [List.foldlM, bind, Except.bind, pure, Except.pure] at hr
-  -- three attributes, in the order year, month, day
-  split at hr
-  · cases hr
-  · rename_i q1 h1
-    have i1 : q1.Inv := by
-      split at h1
-      · injection h1 with h1; subst h1; exact h
-      · exact inv_fillInner _ _ _ _ h h1
-    split at hr
-    · cases hr
-    · rename_i q2 h2
-      have i2 : q2.Inv := by
-        split at h2
-        · injection h2 with h2; subst h2; exact i1
-        · exact inv_fillInner _ _ _ _ i1 h2
-      split at hr
-      · cases hr
-      · rename_i q3 h3
-        have i3 : q3.Inv := by
-          split at h3
-          · injection h3 with h3; subst h3; exact i2
-          · exact inv_fillInner _ _ _ _ i2 h3
-        injection hr with hr; subst hr; exact i3
+  exact inv_fillZip _ p r h hr
 
 def withNow (st : PSettings) (now' : DT) (off' : Option Int) : PSettings := { st with now := now', nowOff := off' }
 
